@@ -155,8 +155,10 @@ def job(kind, text, extra=None):
             v = d.expr[extra].value
             return "rs:" + v.rebuild()
         if kind == "file":
+            from nmverif.monitor.snapshot import snapshot
             d = parse_file(extra)
-            return "pf:" + hashlib.sha1(d.rebuild().encode()).hexdigest()
+            tree = hashlib.sha1(repr(snapshot(d.expressions)).encode()).hexdigest()[:16]
+            return "pf:" + tree + ":" + hashlib.sha1(d.rebuild().encode()).hexdigest()
     except Exception as exc:  # noqa: BLE001
         return f"exc:{type(exc).__name__}"
     return "?"
@@ -233,6 +235,25 @@ def run_shard(spec):
                         if snapshot(d.expressions) != snap_before:
                             B.record(res, {"effect": "failed-rebuild-mutated-tree", "poisoned": type(original).__name__},
                                      {"text": text}, "deep snapshot differs after a rebuild() that raised")
+                    # the same fault while saving: the file on disk must keep its content
+                    if raised and rng.random() < 0.3:
+                        fd, tmp_path = tempfile.mkstemp(suffix=".nix", prefix="nmverif-c15s-")
+                        try:
+                            with os.fdopen(fd, "w", encoding="utf-8", newline="") as fh:
+                                fh.write(text)
+                            try:
+                                d.save(tmp_path)
+                            except Exception:  # noqa: BLE001
+                                pass
+                            with open(tmp_path, encoding="utf-8", newline="") as fh:
+                                on_disk = fh.read()
+                            obs["purity"]["faulted_saves"] = obs["purity"].get("faulted_saves", 0) + 1
+                            if on_disk != text:
+                                B.record(res, {"effect": "failed-save-damaged-the-file",
+                                               "left": "empty" if on_disk == "" else "partial"},
+                                         {"text": text}, f"file holds {on_disk[:120]!r} after save() raised")
+                        finally:
+                            os.unlink(tmp_path)
                     slot_set(original)
                     try:
                         again = d.rebuild()
